@@ -24,6 +24,7 @@ type Ctx struct {
 	Variant string
 	mach    map[string]*fsmx.Machine
 	siteIdx map[ssa.CallInstruction][]*ssa.Function
+	derives []string
 }
 
 type RuleFunc func(c *Ctx)
